@@ -22,12 +22,19 @@ structure St where
 
 /-! rendering / parsing of the canonical storage text (mirrors `harness/cmd/corr/c14.go`) -/
 
+/-- `path.Split`: the directory up to and including the last slash, and the base name -/
+def pURI (s : String) : URI :=
+  match (s.splitOn "/").reverse with
+  | [] => ⟨"", s⟩
+  | [b] => ⟨"", b⟩
+  | b :: rest => ⟨joinWith "/" rest.reverse ++ "/", b⟩
+
 def rCk (c : CkDoc) : String :=
-  s!"{c.id}~{joinWith "," c.wals}~{joinWith "|" (c.levels.map (joinWith ","))}"
+  s!"{c.id}~{joinWith "," (c.wals.map URI.str)}~{joinWith "|" (c.levels.map fun l => joinWith "," (l.map URI.str))}"
 
 def rContent : Content → String
   | .doc cks => "d:" ++ joinWith ";" (cks.map rCk)
-  | .job s => s!"j:{s.id}~{s.src}~" ++ joinWith "," (s.ops.map fun o => s!"{o.op}@{o.ckptId}@{o.uri}")
+  | .job s => s!"j:{s.id}~{s.src}~" ++ joinWith "," (s.ops.map fun o => s!"{o.op}@{o.ckptId}@{o.uri.str}")
   | .blob t => "b:" ++ t
   | .junk => "x"
 
@@ -35,7 +42,7 @@ def splitNE (sep s : String) : List String := (s.splitOn sep).filter (· ≠ "")
 
 def pCk (s : String) : CkDoc :=
   match s.splitOn "~" with
-  | [id, ws, ls] => ⟨natOr id, splitNE "," ws, (ls.splitOn "|").map (splitNE ",")⟩
+  | [id, ws, ls] => ⟨natOr id, (splitNE "," ws).map pURI, (ls.splitOn "|").map fun l => (splitNE "," l).map pURI⟩
   | _ => ⟨0, [], []⟩
 
 def pContent (s : String) : Content :=
@@ -45,7 +52,7 @@ def pContent (s : String) : Content :=
 
 def pEntry (w : String) : Option (Path × Content) :=
   match w.splitOn "=" with
-  | [u, c] => some (.work u, pContent c)
+  | [u, c] => some (.work (pURI u), pContent c)
   | _ => none
 
 def leS (a b : String) : Bool := a < b || a == b
@@ -55,8 +62,8 @@ def dedupKeys : List Path → List Path → List Path
   | p :: r, acc => if acc.contains p then dedupKeys r acc else dedupKeys r (p :: acc)
 
 def keyStr : Path → String
-  | .work u => u
-  | .spFile id u => s!"sp:{id}:{u}"
+  | .work u => u.str
+  | .sp id d b => s!"sp:{id}:{d}{b}"
   | .spJob id => s!"spjob:{id}"
 
 /-- sorted `key=content` words of the files selected by `sel`; job snapshot files of the working storage are
@@ -68,12 +75,12 @@ def listing (fs : FS) (sel : Path → Bool) : String :=
   if ws.isEmpty then "-" else joinWith " " ws
 
 def isWorkFile : Path → Bool
-  | .work u => !u.startsWith "job:"
+  | .work u => !u.base.startsWith "job:"
   | _ => false
 
 def lister : Lister := .byId
 
-def jobURI (id : Nat) : URI := s!"job:{id}"
+def jobURI (id : Nat) : URI := ⟨"", s!"job:{id}"⟩
 
 def splitFeed (ws : List String) : List String × List String :=
   (ws.takeWhile (· ≠ "##"), (ws.dropWhile (· ≠ "##")).drop 1)
@@ -115,7 +122,7 @@ def step (st : St) (line : List String) : St × String :=
         if st.acked.contains name then (st', "dup") else
         match fed with
         | "ack" :: uri :: _ =>
-          let r := ackOp st.store ⟨name, p.id, uri⟩
+          let r := ackOp st.store ⟨name, p.id, pURI uri⟩
           (afterAck { st' with acked := name :: st.acked } r, s!"ack {uri}" ++ pubSuffix r.2)
         | _ => (st', "ack ?")
   | ["srcack"] =>
@@ -126,6 +133,7 @@ def step (st : St) (line : List String) : St × String :=
         if st.srcAcked then (st', "dup") else
         let r := ackSrc st.store p.id s!"s{p.id}"
         (afterAck { st' with srcAcked := true } r, "ok" ++ pubSuffix r.2)
+  | ["redeploy", _] => if !live then (st', "wiped") else if st.frozen then (st', "frozen") else (st', "ok")
   | "retain" :: _ => if !live then (st', "wiped") else if st.frozen then (st', "frozen") else (st', "ok")
   | ["lose", _, _] => if !live then (st', "wiped") else ({ st' with frozen := true }, "ok")
   | ["dump"] =>
@@ -156,7 +164,7 @@ def step (st : St) (line : List String) : St × String :=
       let complete := fun (id : Nat) => (read st.fs (.spJob id)).isSome
       (st', listing st.fs (fun p => match p with
         | .work _ => false
-        | .spFile id _ => complete id
+        | .sp id _ _ => complete id
         | .spJob _ => true))
   | ["work"] =>
       if live then (st', "notwiped") else if st.loaded.isNone then (st', "noload") else (st', listing st.fs isWorkFile)
@@ -164,7 +172,7 @@ def step (st : St) (line : List String) : St × String :=
   | ["junk", _] =>
       if live then (st', "notwiped") else
       match fed with
-      | "junk" :: uri :: _ => ({ st' with fs := write (.work uri) .junk st.fs }, s!"junk {uri}")
+      | "junk" :: uri :: _ => ({ st' with fs := write (.work (pURI uri)) .junk st.fs }, s!"junk {uri}")
       | _ => (st', "none")
   | ["load", id] =>
       if live then (st', "notwiped") else
